@@ -8,3 +8,72 @@ use super::*;
 pub(crate) fn attributes_with_capacity(n: usize) -> StunAttributes {
     StunAttributes { attributes: Vec::with_capacity(n), integrity: None, integrity_sha256: None, fingerprint: None }
 }
+
+// C13 (unit level): the application's attribute list — one entry per type, in FIRST-insertion order,
+// holding the value added last; integrity / fingerprint attributes are kept aside and come last in the
+// order MI, SHA256, FINGERPRINT.  The kinds of the three additions are concrete per instance (values
+// symbolic); patterns with a type added twice, adjacent and not adjacent.
+fn other(code: u16) -> StunAttribute {
+    StunAttribute::Other(stun_rs::attrs_model::Other { code, val: kani::any() })
+}
+fn c13_add_order<const K0: u16, const K1: u16, const K2: u16>() {
+    let mut l = attributes_with_capacity(8);
+    let a = [other(K0), other(K1), other(K2)];
+    l.add(a[0]);
+    l.add(a[1]);
+    l.add(a[2]);
+    let with_fp: bool = kani::any();
+    if with_fp {
+        l.add(StunAttribute::Fingerprint(stun_rs::attrs_model::Fingerprint::Encodable));
+    }
+    let out: Vec<StunAttribute> = l.into();
+    // reference
+    let ks = [K0, K1, K2];
+    let mut want = [a[0]; 3];
+    let mut wk = [0u16; 3];
+    let mut n = 0usize;
+    let mut i = 0;
+    while i < 3 {
+        let mut found = false;
+        let mut k = 0;
+        while k < n {
+            if wk[k] == ks[i] {
+                want[k] = a[i];
+                found = true;
+            }
+            k += 1;
+        }
+        if !found {
+            want[n] = a[i];
+            wk[n] = ks[i];
+            n += 1;
+        }
+        i += 1;
+    }
+    assert!(out.len() == n + with_fp as usize, "C13: one entry per type");
+    let mut k = 0;
+    while k < 3 {
+        if k < n {
+            assert!(out[k] == want[k], "C13: application attributes in first-insertion order, holding the last value added for their type");
+        }
+        k += 1;
+    }
+    if with_fp {
+        assert!(matches!(out[n], StunAttribute::Fingerprint(_)), "C13: FINGERPRINT last");
+    }
+    std::mem::forget(out);
+}
+macro_rules! add_inst {
+    ($($name:ident = ($a:expr, $b:expr, $c:expr);)*) => {$(
+        #[kani::proof]
+        #[kani::unwind(6)]
+        fn $name() { c13_add_order::<$a, $b, $c>(); }
+    )*};
+}
+add_inst! {
+    c13_add_order_aba = (0x8022, 0x0024, 0x8022);
+    c13_add_order_aab = (0x8022, 0x8022, 0x0024);
+    c13_add_order_abb = (0x8022, 0x0024, 0x0024);
+    c13_add_order_abc = (0x8022, 0x0024, 0x0025);
+    c13_add_order_aaa = (0x8022, 0x8022, 0x8022);
+}
